@@ -1,209 +1,8 @@
 """C19 — JSON.parse / JSON.stringify conform to the JSON grammar and round-trip.
 
-The findings F13 and F-C19-1..5 have been repaired in /repo (known/C19.json "fixed": they suppress nothing, their
-former replays are plain regressions in corpus/C19/).  One finding is open (F-C19-6, a lone surrogate inside the gap
-string); it has a narrow recogniser below.  Every other disagreement with the specification model is a VIOLATION."""
-import json
-import os
-import re
-
-import vcheck
-
-
-_SOBS = re.compile(r"\(TText \(U \[([0-9;]*)\]%N\)\)|TUndef|\(TErr (\d+)%N\)")
-_SOUT = re.compile(r"SText \[([^\]]*)\]|SUndef|SThrow")
-
-
-def _units(s):
-    return [int(x) for x in re.findall(r"\d+", s)] if s else []
-
-
-def sobs_list(coq):
-    """all stringify-like observations in a case term, in order: ('text', units) | ('undef',) | ('err', n)"""
-    out = []
-    for m in _SOBS.finditer(coq):
-        if m.group(0) == "TUndef":
-            out.append(("undef",))
-        elif m.group(2) is not None:
-            out.append(("err", int(m.group(2))))
-        else:
-            out.append(("text", _units(m.group(1))))
-    return out
-
-
-def sout_list(exp):
-    out = []
-    for m in _SOUT.finditer(exp):
-        if m.group(0) == "SUndef":
-            out.append(("undef",))
-        elif m.group(0) == "SThrow":
-            out.append(("err", 1))
-        else:
-            out.append(("text", [int(x) for x in re.findall(r"(\d+)%N", m.group(1))]))
-    return out
-
-
-def lone_surrogate(units):
-    u = units or []
-    for i, c in enumerate(u):
-        if 0xD800 <= c <= 0xDBFF:
-            if not (i + 1 < len(u) and 0xDC00 <= u[i + 1] <= 0xDFFF):
-                return True
-        elif 0xDC00 <= c <= 0xDFFF:
-            if not (i > 0 and 0xD800 <= u[i - 1] <= 0xDBFF):
-                return True
-    return False
-
-
-
-def sanitize_units(u):
-    """lone surrogates -> U+FFFD (what a UTF-8 byte buffer keeps of them)"""
-    out = []
-    for i, c in enumerate(u):
-        if 0xD800 <= c <= 0xDBFF and not (i + 1 < len(u) and 0xDC00 <= u[i + 1] <= 0xDFFF):
-            out.append(0xFFFD)
-        elif 0xDC00 <= c <= 0xDFFF and not (i > 0 and 0xD800 <= u[i - 1] <= 0xDBFF):
-            out.append(0xFFFD)
-        else:
-            out.append(c)
-    return out
-
-
-def replace_all(units, pat, rep):
-    out, i, n = [], 0, len(pat)
-    while i < len(units):
-        if n and units[i:i + n] == pat:
-            out += rep
-            i += n
-        else:
-            out.append(units[i])
-            i += 1
-    return out
-
-
-def gap_lone_surrogate(case, rec, exp):
-    """F-C19-6: the space argument is a string whose first 10 code units contain a surrogate that is not half of a
-    pair (also when the truncation to 10 units splits a pair); observed = the specified text with every copy of the
-    gap written with U+FFFD in place of those surrogates; nothing else may differ."""
-    if case.get("k") != "str":
-        return False
-    sp = case.get("sp") or {}
-    if sp.get("t") not in ("str", "boxstr"):
-        return False
-    gap = (sp.get("s") or [])[:10]
-    if not lone_surrogate(gap):
-        return False
-    obs = sobs_list(rec.get("coq", ""))
-    exps = sout_list(exp)
-    if not obs or not exps or obs[0][0] != "text" or exps[0][0] != "text":
-        return False
-    return obs[0][1] != exps[0][1] and replace_all(exps[0][1], gap, sanitize_units(gap)) == obs[0][1]
-
-
-def explain(case, rec, exp):
-    """-> set of finding names that explain this mismatch completely, or None"""
-    if gap_lone_surrogate(case, rec, exp):
-        return {"C19.stringify_gap_lone_surrogate"}
-    return None
-
-
-PRED_NAMES = ["C19.stringify_gap_lone_surrogate"]
-
-
-def pred(name):
-    def fn(case, rec, exp):
-        ids = explain(case, rec, exp)
-        return bool(ids) and name in ids
-    return fn
-
-
-# ------------------------------------------------------------------------------------------------
-# batched handling of mismatches: EVERY mismatch of a run is re-executed and classified with the model's expected
-# text (one harness run + parallel coqc runs of 40 cases), so that a frequent known finding can never hide a new one
-
-def _eval_chunk(args):
-    work, run_module, tag, idx, chunk = args
-    path = os.path.join(work, "exp_%s_%d.v" % (tag, idx))
-    with open(path, "w") as f:
-        f.write("From Coq Require Import List ZArith NArith String Ascii.\nImport ListNotations.\n")
-        f.write("Require Import %s.\n" % run_module)
-        f.write("Set Printing Width 1000000. Set Printing Depth 1000000.\n")
-        for i, r in enumerate(chunk):
-            f.write("Definition c%d : tcase := (%s).\n" % (i, r["coq"]))
-            f.write("Eval vm_compute in (mismatch_ids [c%d], expected c%d).\n" % (i, i))
-    rc, out = vcheck.sh(["coqc", "-Q", vcheck.COQ, "Verif", "-o", path + "o", path], timeout=900)
-    parts = re.split(r"^\s+= ", out, flags=re.M)[1:]
-    if rc != 0 or len(parts) != len(chunk):
-        return None, out[-600:]
-    res = []
-    for p in parts:
-        body = re.split(r"\n\s+: ", p)[0]
-        res.append((not body.startswith("([],"), body))
-    return res, ""
-
-
-def eval_expected(ctx, recs, tag):
-    """-> list of (still_mismatching, expected_text) per record; chunks are evaluated in parallel"""
-    import concurrent.futures as cf
-    per = 40
-    jobs = [(ctx.work, ctx.cfg["run_modules"][0], tag, s // per, recs[s:s + per]) for s in range(0, len(recs), per)]
-    res = []
-    with cf.ThreadPoolExecutor(max_workers=vcheck.NCPU) as ex:
-        for job, (r, err) in zip(jobs, ex.map(_eval_chunk, jobs)):
-            if r is None:
-                ctx.log("expected-evaluation failed: " + err)
-                ctx.eval_errors = True
-                res += [(True, "")] * len(job[4])
-            else:
-                res += r
-    return res
-
-
-def c19_handle(ctx, binp, recs, bad, source):
-    known = {k["predicate"]: k for k in vcheck.load_known()["open"] if k["property"] == ctx.pid}
-    cases = [recs[i]["case"] for i in bad]
-    rr = vcheck.harness_replay(ctx, binp, cases, tag="final_" + source)
-    if len(rr) != len(cases):
-        rr = [recs[i] for i in bad]
-    res = eval_expected(ctx, rr, source)
-    seen = ctx.__dict__.setdefault("c19_seen", {})
-    reported = 0
-    for case, rec, (mm, exp) in zip(cases, rr, res):
-        if not mm:
-            ctx.notes.append({"nonreproducible": case})
-            continue
-        ids = explain(case, rec, exp)
-        if ids and all(i in known for i in ids):
-            for i in sorted(ids):
-                seen[i] = seen.get(i, 0) + 1
-                if seen[i] == 1:
-                    k = known[i]
-                    line = "KNOWN-FINDING: property=%s %s [%s]" % (ctx.pid, k["what"], k["id"])
-                    print(line, flush=True)
-                    ctx.known_lines.append(line)
-            continue
-        if reported < ctx.cfg.get("max_report", 6):
-            ctx.violation({
-                "property": ctx.pid, "seed": ctx.seed, "source": source, "case": case,
-                "implementation_observation": rec.get("obs"), "model_expected": exp[:6000],
-                "coq_term": rec.get("coq"), "contradicts": ctx.cfg.get("theorem_names", []),
-                "how_to_replay": "bin/check %s --replay <this file>" % ctx.pid,
-            })
-        else:
-            ctx.violations.append(("(not written: more than max_report)", ""))
-        reported += 1
-    ctx.cov["known_finding_hits"] = dict(seen)
-    return reported
-
-
-def stage(ctx):
-    orig = vcheck.handle_mismatches
-    vcheck.handle_mismatches = c19_handle
-    try:
-        vcheck.correspondence(ctx)
-    finally:
-        vcheck.handle_mismatches = orig
-
+All findings recorded for this property (F13, F-C19-1..6) have been repaired in /repo (known/C19.json "fixed": they
+suppress nothing, their former replays are plain regressions in corpus/C19/).  There is no open finding, hence no
+known-finding recogniser and no custom mismatch handler: every disagreement with the specification model is a VIOLATION."""
 
 CFG = {
     "id": "C19",
@@ -216,7 +15,6 @@ CFG = {
     "level": "proof",
     "shrink": False,
     "max_report": 6,
-    "stages": [stage],
     "rule": ("about 2/3 JSON.parse cases: texts from a grammar generator (nesting <= 8, every escape form, long mantissas and "
              "exponents incl. beyond double range and below the smallest subnormal, every white-space slot, duplicate / __proto__ / "
              "integer-like keys), single-edit corruptions (delete / insert / replace one unit from a confusing alphabet incl. BOM, "
@@ -256,7 +54,7 @@ CFG = {
         "V8's own deviation for 0 < space < 1 (it emits line breaks with an empty gap); the six goja findings recorded "
         "then were goja-vs-(model = V8) differences and have since been repaired in /repo",
     ],
-    "predicates": {n: pred(n) for n in PRED_NAMES},
+    "predicates": {},
     "manifest": {
         "text": ("proof: the model's recursive-descent JSON parser is proved sound and complete for the ECMA-404 grammar written as an "
                  "inductive relation (it accepts EXACTLY the grammar, all inputs, white space included); the canonical printer "
